@@ -1,6 +1,7 @@
 """Contracts for kernel/term.py, part 2: type and term instantiation."""
 from spec.api import contract, implies, iff, ite
-from spec.subst import subst_type_spec, subst_spec
+from spec.subst import subst_type_spec, subst_spec, svars_of, inst_ty
+from spec.api import as_set
 from spec.types import tsubst
 
 
@@ -15,3 +16,58 @@ class subst_type:
 
     def decreases(self):
         return self
+
+
+@contract("kernel.term.Term.get_svars")
+class get_svars:
+    params = {'self': 'Term'}
+    returns = 'set[Term]'
+    trusted = True
+    note = '(list of distinct schematic variables, modelled as the set svars_of(self); cross-checked natively)'
+
+    def ensures(self, result):
+        return as_set(result) == svars_of(self)
+
+
+@contract("kernel.term.Term.subst.rec")
+class subst_rec:
+    params = {'t': 'Term'}
+    captures = {'inst': 'Inst', 'cache': 'memo'}
+    returns = 'Term'
+    memo = 'cache'
+
+    def ensures(t, inst, result):
+        return result == subst_spec(t, inst.data, inst.var_inst)
+
+    def decreases(t):
+        return t
+
+
+@contract("kernel.term.Term.subst")
+class subst:
+    params = {'self': 'Term', 'inst': 'opt[obj[Inst]]', 'kwargs': 'none'}
+    returns = 'Term'
+    modifies = ['inst']
+    raises = ['TermException', 'TypeCheckException']
+    ghost = {'k': 'str'}
+    loop_modifies = {0: ['inst']}
+
+    def requires(inst):
+        return inst is not None
+
+    def ensures_result(self, inst, result):
+        # simultaneous replacement of schematic variables / variables in the type-instantiated term,
+        # with the FINAL type instantiation
+        return result == subst_spec(inst_ty(self, inst.tyinst), inst.data, inst.var_inst)
+
+    def ensures_frame(old_inst, inst):
+        return inst.data == old_inst.data and inst.var_inst == old_inst.var_inst and \
+            inst.abs_name_inst == old_inst.abs_name_inst
+
+    def ensures_extends(old_inst, inst, k):
+        return implies(k in old_inst.tyinst, k in inst.tyinst and inst.tyinst[k] == old_inst.tyinst[k])
+
+    def invariant0(old_inst, inst, k):
+        return inst.data == old_inst.data and inst.var_inst == old_inst.var_inst and \
+            inst.abs_name_inst == old_inst.abs_name_inst and \
+            implies(k in old_inst.tyinst, k in inst.tyinst and inst.tyinst[k] == old_inst.tyinst[k])
